@@ -1311,11 +1311,19 @@ def check_access(ctx, cr, s):
         for it in im["items"]:
             if it["kind"] == "fn" and it.get("pub"):
                 names.add(it["name"])  # (the API surface is what is `pub`: a private method is not a getter anyone has)
-    # presence / absence by name, per declared access
+    # presence / absence by name, per declared access (a name declared twice -- a read view and a write view --
+    # has the union of both specifiers)
+    by_name = {}
+    for f in s["fields"]:
+        by_name.setdefault(f["name"].replace("r#", ""), set()).update(f["access"])
+    done_names = set()
     for f in s["fields"]:
         fname = f["name"].replace("r#", "")
-        want_get = "r" in f["access"]
-        want_set = "w" in f["access"]
+        if fname in done_names:
+            continue
+        done_names.add(fname)
+        want_get = "r" in by_name[fname]
+        want_set = "w" in by_name[fname]
         ctx.ob({"C17"}, "%s::%s|getter_%s" % (path, fname, "present" if want_get else "absent"), (fname in names) == want_get,
                "getter `%s` %s for access `%s`" % (fname, "missing" if want_get else "must not exist", f["access"] or "none"),
                sample={"decl": path, "field": fname, "access": f["access"], "getter": fname in names})
@@ -1330,9 +1338,9 @@ def check_access(ctx, cr, s):
             for it in im["items"]:
                 if it["kind"] == "fn" and it.get("pub"):
                     pnames.add(it["name"])
-        for f in s["fields"]:
-            fname = f["name"].replace("r#", "")
-            want = "w" in f["access"]
+        for fname in sorted(by_name):
+            want = "w" in by_name[fname]
+            f = {"access": "".join(sorted(by_name[fname]))}
             ctx.ob({"C17"}, "%s::with_%s|builder_step_%s" % (path, fname, "present" if want else "absent"), (("with_" + fname) in pnames) == want,
                    "builder step `with_%s` %s for access `%s`" % (fname, "missing" if want else "must not exist", f["access"] or "none"))
     # semantic surface: whatever the functions are called
@@ -1915,6 +1923,9 @@ def analyse_positive(ctx, want_props):
                     # the declared default itself is what the macro refuses: the value C06 promises for DEFAULT /
                     # Default::default() / new() cannot be had for this (rule-valid) way of declaring it
                     p2.add("C06")
+                if p != {"C18"} and d["kind"] == "struct" and d.get("default") is not None and d.get("family") == "MISC" and d["name"].startswith(("DbgFirst", "Lit")):
+                    # these witnesses exist for the ways a default can be *written* (argument order, literal forms)
+                    p2.add("C06")
                 if p != {"C18"} and d["kind"] == "struct" and (d.get("family") == "CUSTOM" or (d.get("family") == "MISC" and d["name"].startswith(("Paths", "UsesNoDerive")))) \
                         and any(f["ty"]["k"] in ("enum", "optenum", "nested") for f in d["fields"]):
                     # these witnesses exist to show C08 for every kind and spelling of a custom-typed field: if one
@@ -1941,6 +1952,17 @@ def analyse_positive(ctx, want_props):
             ctx.ob(set(want_props), cname + "|driver_errors", None, "driver errors: %s" % cr["errors"][:2])
         if "C18" in want_props:
             check_regime(ctx, cr, cname)
+        if "C16" in want_props and not cname.startswith("pos_accepted"):
+            ed = (facts.meta.get("expand_diff") or {}).get(cname)
+            if ed is None:
+                ctx.ob({"C16"}, cname + "|expansion_profile_independent", None, "no expansion comparison for this crate")
+            elif ed.get("same") is False:
+                ctx.ob({"C16"}, cname + "|expansion_profile_independent", False,
+                       "the macro expands this crate differently when it is built without debug assertions / overflow checks (as in a --release build): "
+                       "expanded line %s: `%s` vs `%s`" % (ed.get("line"), ed.get("dev", "")[:120], ed.get("rel", "")[:120]))
+            else:
+                ctx.ob({"C16"}, cname + "|expansion_profile_independent", True if ed.get("same") else None, ed.get("why", ""),
+                       sample={"crate": cname, "expanded_lines": ed.get("lines"), "dev_vs_release_built_macro": "identical"})
         def judge_decl(d):
             if d.get("skip"):
                 return
